@@ -569,3 +569,24 @@ package core
 //@   loop 2 invariant forall a string, n core.Nodable :: old(has(self.fileArgs, a)) && !has(self.fileArgs, a) ==> !has(old(self.fileArgs[a]), n)
 //@   loop 2 invariant forall a string, n core.Nodable :: has(self.fileArgs, a) && has(self.fileArgs[a], n) ==> old(has(self.fileArgs[a], n))
 //@   loop 2 invariant !isnil(node)
+
+// Every reference bound with a type that is, or may contain, a file path registers the
+// producing node and the bound output in fileRefs (from which the producer's fileArgs and
+// filePostNodes are built): such outputs are kept alive for this consumer.
+//@ func syntax.ResolvedBinding.FindRefs property C04
+//@   pure
+//@   opt deterministic on
+
+//@ iface syntax.Type.IsFile property C04
+//@   pure
+//@   opt deterministic on
+
+//@ func core.Node.makePrenodesForBinding property C04
+//@   requires self != nil && bind != nil && self.top != nil
+//@   requires forall n core.Nodable :: fileRefs != nil && has(fileRefs, n) && fileRefs[n] != nil ==> alloc(fileRefs[n])
+//@   let R = fn(syntax.ResolvedBinding.FindRefs, bind, self.top.types).0
+//@   ensures @registered forall j :: 0 <= j && j < len(R) && R[j] != nil && R[j].Exp != nil && fn(syntax.Type.IsFile, R[j].Type) != 0 ==> result.1 != nil && has(result.1, self.top.allNodes[R[j].Exp.Id]) && has(result.1[self.top.allNodes[R[j].Exp.Id]], R[j].Exp.OutputId)
+//@   loop 1 invariant 0 <= iter && iter <= len(R) && len(brefs) == len(R) && base(brefs) == base(R) && off(brefs) == off(R)
+//@   loop 1 invariant forall n core.Nodable :: fileRefs != nil && has(fileRefs, n) && fileRefs[n] != nil ==> alloc(fileRefs[n])
+//@   loop 1 invariant forall j :: 0 <= j && j < iter && R[j] != nil && R[j].Exp != nil && fn(syntax.Type.IsFile, R[j].Type) != 0 ==> fileRefs != nil && has(fileRefs, self.top.allNodes[R[j].Exp.Id]) && has(fileRefs[self.top.allNodes[R[j].Exp.Id]], R[j].Exp.OutputId)
+//@   loop 2 invariant forall j :: 0 <= j && j < len(R) && R[j] != nil && R[j].Exp != nil && fn(syntax.Type.IsFile, R[j].Type) != 0 ==> fileRefs != nil && has(fileRefs, self.top.allNodes[R[j].Exp.Id]) && has(fileRefs[self.top.allNodes[R[j].Exp.Id]], R[j].Exp.OutputId)
